@@ -71,8 +71,19 @@ def sample(ty, rng):
     raise TypeError('no sampler for %r' % (ty,))
 
 
+def _in_range(ty, v):
+    if isinstance(ty, api._Int) and isinstance(v, int) and not isinstance(v, bool):
+        return (ty.lo is None or v >= ty.lo) and (ty.hi is None or v <= ty.hi)
+    if isinstance(ty, api._Bytes) and isinstance(v, (bytes, bytearray)):
+        return (ty.n is None or len(v) == ty.n) and (ty.max is None or len(v) <= ty.max) and (getattr(ty, 'min', None) is None or len(v) >= ty.min) \
+            and (getattr(ty, 'ne', None) is None or v != ty.ne)
+    return True
+
+
 def fuzz_contract(c, n, seed):
-    rng = random.Random((hash(c.key) & 0xffff) * 1000003 + seed)
+    # deterministic per contract and seed (str hashes are randomised per process: never use hash() here)
+    import hashlib as _hl
+    rng = random.Random(int.from_bytes(_hl.sha256(c.key.encode()).digest()[:6], 'big') * 1000003 + seed)
     runs = 0
     rejected = 0
     failures = []
@@ -84,6 +95,10 @@ def fuzz_contract(c, n, seed):
         tries += 1
         if c.sample is not None:
             env = c.sample(rng)
+            # a contract's own sampler has to respect the declared parameter ranges (they are preconditions)
+            if any(not _in_range(c.params.get(k), v) for k, v in env.items()):
+                rejected += 1
+                continue
         else:
             env = {k: (sample(t, rng) if isinstance(t, api.T) else t) for k, t in c.params.items()}
         runs += 1
